@@ -194,7 +194,7 @@ def judge_mpe(ctx, case, model_s, site="FDD_mpe"):
     # ---- correspondence
     if merr == "NoModel":
         ctx.not_judged += 1
-        return
+        return exc, Fn, Phi
     if merr is not None:
         if exc is None:
             ctx.fail("correspondence", "%s returns where the model raises %sError" % (site, merr), small, key="C06:%s:corr-raise" % site)
@@ -205,7 +205,7 @@ def judge_mpe(ctx, case, model_s, site="FDD_mpe"):
         if Fn.shape != (nsel,) or Phi.shape != (Svec.shape[1], nsel):
             ctx.fail("oracle", "%s: Fn/Phi have shapes %s/%s for %d selected frequencies and %d channels"
                      % (site, Fn.shape, Phi.shape, nsel, Svec.shape[1]), small, key="C06:%s:shape" % site)
-            return
+            return exc, None, None
         ratio = Sval[0, 0, :] / Sval[1, 1, :]
         for i, f in enumerate(case["sel"]):
             where = np.nonzero(freq == Fn[i])[0]
@@ -241,6 +241,42 @@ def judge_mpe(ctx, case, model_s, site="FDD_mpe"):
                     ctx.fail("correspondence", "%s: Phi differs from the model's unity-normalised S_vec[0,:,idx]" % site, dict(small, i=i),
                              key="C06:%s:corr-phi" % site)
     ctx.count(small, nontrivial=nontriv)
+    return exc, Fn, Phi
+
+
+# scale family: the property is about the RATIO of the singular values, so multiplying the whole S_val table (and,
+# independently, the S_vec table) by a power of two - exact in floating point and in Q - must change neither the picked
+# line nor Phi, and every scaled instance must satisfy the property text on its own.
+def band_decisive(ratio, s1, lo, hi):
+    """the ratio has one clear largest line on [lo,hi) and on [lo,hi], and sigma1 peaks somewhere else."""
+    if hi - lo < 3 or hi >= len(ratio):
+        return False
+    a = int(np.argmax(ratio[lo:hi]))
+    if int(np.argmax(ratio[lo : hi + 1])) != a:
+        return False
+    rest = np.delete(ratio[lo : hi + 1], a)
+    return bool(rest.max() < ratio[lo + a] * (1 - 1e-6) and int(np.argmax(s1[lo:hi])) != a)
+
+
+def gen_scale_base(rng, ctx):
+    for _ in range(400):
+        case = gen_mpe_case(rng, ctx, malformed=False)
+        freq = np.array(case["freq"])
+        Sval = np.array(case["Sval"])
+        ratio, s1 = Sval[0, 0] / Sval[1, 1], Sval[0, 0]
+        ok = True
+        for f in case["sel"]:
+            los, his = nearest_set(freq, f - case["DF"]), nearest_set(freq, f + case["DF"])
+            ok = ok and len(los) == 1 and len(his) == 1 and band_decisive(ratio, s1, los[0], his[0])
+        if ok:
+            return case
+    return None
+
+
+def scaled_case(case, k, j):
+    Sval = (np.array(case["Sval"]) * 2.0**k).tolist()
+    Svec = [[[[z[0] * 2.0**j, z[1] * 2.0**j] for z in ln] for ln in row] for row in case["Svec"]]
+    return dict(case, kind="scaled", Sval=Sval, Svec=Svec, scale_log2=[k, j])
 
 
 # ----------------------------------------------------------------------------------------------------------------------
@@ -572,10 +608,156 @@ def part_C(ctx):
                          dict(case, cls="FDD_MS"), key="C06:FDD_MS:narrow-band-amplitudes")
 
 
+def find_band(rng, freq, sv, df):
+    """a (sel_freq, DF) whose band has one clear ratio peak while sigma1 peaks at another line."""
+    ratio, s1 = sv[:, 0] / sv[:, 1], sv[:, 0]
+    for _ in range(300):
+        k0 = int(rng.integers(6, len(freq) - 6))
+        DF = float(df * rng.choice([2.0, 3.0, 4.0]))
+        f = float(freq[k0] + rng.choice([0.0, df / 4]))
+        los, his = nearest_set(freq, f - DF), nearest_set(freq, f + DF)
+        if len(los) == 1 and len(his) == 1 and band_decisive(ratio, s1, los[0], his[0]):
+            return f, DF
+    return None
+
+
+def part_C_scale(ctx):
+    """records multiplied by 2^k (spectra by 2^(2k), 2k spread over about [-90, 90]): every scaled run must satisfy the
+    property text, and the picked line and Phi must not move.  Noise-dominated records: sigma1 and sigma1/sigma2 peak at
+    different lines of the chosen band."""
+    from pyoma2.algorithms import EFDD, FDD, FDD_MS
+    from pyoma2.setup import MultiSetup_PreGER, SingleSetup
+
+    rng = ctx.np_rng
+    fs = 32.0
+
+    def run_single(cls, x, nxseg, method, sel, DF):
+        ss = SingleSetup(x.copy(), fs=fs)
+        alg = cls(name="a", nxseg=nxseg, method_SD=method)
+        ss.add_algorithms(alg)
+        ss.run_by_name("a")
+        if sel is not None:
+            if cls is FDD:
+                ss.mpe("a", sel_freq=list(sel), DF=DF)
+            else:
+                ss.mpe("a", sel_freq=list(sel), DF1=DF, **efdd_kw)
+        return alg.result
+
+    def run_multi(datasets, ref_ind, nxseg, method, sel, DF):
+        ms = MultiSetup_PreGER(fs=fs, ref_ind=[list(r) for r in ref_ind], datasets=[d.copy() for d in datasets])
+        alg = FDD_MS(name="m", nxseg=nxseg, method_SD=method)
+        ms.add_algorithms(alg)
+        ms.run_by_name("m")
+        if sel is not None:
+            ms.mpe("m", sel_freq=list(sel), DF=DF)
+        return alg.result
+
+    def compare(site, base, res, k, case):
+        Fn0, Phi0, Fn1, Phi1 = np.asarray(base.Fn), np.asarray(base.Phi), np.asarray(res.Fn), np.asarray(res.Phi)
+        fn_same = np.array_equal(Fn0, Fn1) if site != "EFDD" else True   # EFDD's Fn comes from the second stage (C07)
+        if Phi0.shape != Phi1.shape or not fn_same or np.abs(Phi0 - Phi1).max() > 1e-7:
+            ctx.fail("oracle", "%s: multiplying the record by 2^%d changes the result: Fn %s -> %s, max |dPhi| = %.3g (sigma1/sigma2 is unchanged)"
+                     % (site, k, Fn0.tolist(), Fn1.tolist(), np.abs(Phi0 - Phi1).max() if Phi0.shape == Phi1.shape else float("nan")),
+                     case, key="C06:%s:scale-invariance" % site)
+
+    kall = [-45, -41, -37, -33, -24, -12, 9, 21, 33, 45]
+    efdd_kw = {}
+    for c in range(ctx.n(3, 8)):
+        nch = int(rng.integers(2, 5))
+        N, nxseg = 2048, int(rng.choice([64, 128]))
+        df = fs / nxseg
+        method = "per" if c % 2 == 0 else "cor"
+        shapes = dy_c(rng, (2, nch), 8, 8.0)
+        for _attempt in range(4):
+            x = record(rng, N, fs, shapes, [4.0, 9.5], 1.0)
+            r0 = run_single(FDD, x, nxseg, method, None, None)
+            sv = np.array([np.linalg.svd(np.asarray(r0.Sy)[:, :, k], compute_uv=False) for k in range(len(r0.freq))])
+            band = find_band(rng, np.asarray(r0.freq), sv, df)
+            if band is not None:
+                break
+        if band is None:
+            ctx.hist("class-scale-skip", "no decisive band")
+            ctx.not_judged += 1
+            continue
+        sel, DF = [band[0]], band[1]
+        xl = x.tolist()
+        ks = kall if not ctx.quick() else [-45, int(rng.choice([-41, -37])), int(rng.choice([-24, -12])), int(rng.choice([9, 21, 33])), 45]
+        for cls, name in ((FDD, "FDD"), (EFDD, "EFDD")):
+            base = None
+            for efdd_kw in (dict(DF2=2.0, sppk=1, npmax=4), dict(DF2=4.0, sppk=1, npmax=2), dict(DF2=1.0, sppk=0, npmax=3)):
+                try:   # the second stage (C07) must be able to fit, otherwise the first stage of EFDD is not observable
+                    base = run_single(cls, x, nxseg, method, sel, DF)
+                    break
+                except Exception:  # noqa: BLE001
+                    continue
+            if base is None:
+                ctx.hist("class-scale-skip", name + ": second stage cannot fit")
+                ctx.not_judged += 1
+                continue
+            for k in ks if cls is FDD else (ks[0], ks[-1]):
+                case = dict(kind="class-scale", cls=name, nch=nch, nxseg=nxseg, method=method, sel=sel, DF=DF, scale_log2=k, seed_case=c,
+                            fs=fs, record_before_scaling=xl)
+                try:
+                    res = run_single(cls, x * 2.0**k, nxseg, method, sel, DF)
+                except Exception as e:  # noqa: BLE001
+                    if cls is FDD:
+                        ctx.fail("oracle", "FDD.mpe raises %s when the record is multiplied by 2^%d" % (type(e).__name__, k), case, key="C06:FDD:scale-raise")
+                    else:
+                        ctx.not_judged += 1
+                    continue
+                ctx.count({k2: v for k2, v in case.items() if k2 != "record_before_scaling"}, nontrivial=True)
+                ctx.hist("class-scale-log2", (name, 2 * k))
+                class_oracle(ctx, res, sel, DF, case, name, fn_on_grid=cls is FDD)
+                compare(name, base, res, k, case)
+    for c in range(ctx.n(1, 5)):
+        nxseg = int(rng.choice([64, 128]))
+        df = fs / nxseg
+        method = "per" if c % 2 == 0 else "cor"
+        nref, nmov = 2, [int(rng.integers(1, 3)), int(rng.integers(1, 3))]
+        shapes = dy_c(rng, (2, nref + sum(nmov)), 8, 8.0)
+        datasets, pos = [], nref
+        for m in nmov:
+            cols = list(range(nref)) + list(range(pos, pos + m))
+            pos += m
+            datasets.append(record(rng, 2048, fs, shapes[:, cols], [4.0, 9.5], 1.0))
+        ref_ind = [[0, 1], [0, 1]]
+        r0 = run_multi(datasets, ref_ind, nxseg, method, None, None)
+        sv = np.array([np.linalg.svd(np.asarray(r0.Sy)[:, :, k], compute_uv=False) for k in range(len(r0.freq))])
+        band = find_band(rng, np.asarray(r0.freq), sv, df)
+        if band is None:
+            ctx.not_judged += 1
+            continue
+        sel, DF = [band[0]], band[1]
+        base = run_multi(datasets, ref_ind, nxseg, method, sel, DF)
+        dl = [d.tolist() for d in datasets]
+        for k in (kall if not ctx.quick() else [-45, -37, 33]):
+            case = dict(kind="class-scale", cls="FDD_MS", nmov=nmov, nxseg=nxseg, method=method, sel=sel, DF=DF, scale_log2=k, seed_case=c,
+                        fs=fs, ref_ind=ref_ind, datasets_before_scaling=dl)
+            try:
+                res = run_multi([d * 2.0**k for d in datasets], ref_ind, nxseg, method, sel, DF)
+            except Exception as e:  # noqa: BLE001
+                ctx.fail("oracle", "FDD_MS.mpe raises %s when the records are multiplied by 2^%d" % (type(e).__name__, k), case, key="C06:FDD_MS:scale-raise")
+                continue
+            ctx.count({k2: v for k2, v in case.items() if k2 != "datasets_before_scaling"}, nontrivial=True)
+            ctx.hist("class-scale-log2", ("FDD_MS", 2 * k))
+            class_oracle(ctx, res, sel, DF, case, "FDD_MS", fn_on_grid=True)
+            compare("FDD_MS", base, res, k, case)
+
+
 # ----------------------------------------------------------------------------------------------------------------------
 def run(ctx):
     rng = ctx.np_rng
+    # at most three recorded failures per key, so that one flooding site cannot hide the other sites' failing inputs
+    record_fail, per_key = ctx.fail, {}
+
+    def capped_fail(kind, what, case=None, key=None):
+        per_key[key or what] = per_key.get(key or what, 0) + 1
+        if per_key[key or what] <= 3:
+            record_fail(kind, what, case, key)
+
+    ctx.fail = capped_fail
     ctx.extra["rule"] = ("A: FDD_mpe cases (grid, S_val table, complex S_vec, sel_freq, DF); non-trivial when the call returns and a band holds >= 2 lines. "
+                         "Scale families: the same table / record times 2^k, k over [-90,90] for tables and [-45,45] for records (spectra 2^-90..2^90), on bands where sigma1 and sigma1/sigma2 peak at different lines. "
                          "B: SD_svalsvec on Hermitian / rectangular dyadic complex matrices. C: class runs on random records. Distinct by hash of the whole case.")
     ctx.assumptions += [
         "oracle contract (Section hypotheses of C06_svalsvec_faithful_*, C06_svalsvec_left_action, C06_narrowband_collinear): numpy.linalg.svd returns U, S, Vh "
@@ -590,18 +772,48 @@ def run(ctx):
     for p in sorted(glob.glob(os.path.join(VERIF, "corpus", "C06", "*.json"))):
         cases.append(json.load(open(p)))
     ncorp = len(cases)
-    n = ctx.n(168, 2400)
+    n = ctx.n(130, 2200)
     for k in range(n):
         cases.append(gen_mpe_case(rng, ctx, malformed=(k % 7 == 3)))
     cases = [c for c in cases if c and "freq" in c]
+    # scale families: base table (sigma1 peaks away from the ratio peak, no ties) and the same table times 2^k
+    fam = {}
+    for b in range(ctx.n(8, 60)):
+        base = gen_scale_base(rng, ctx)
+        if base is None:
+            continue
+        base = dict(base, kind="scale-base")
+        ks = [-90, int(rng.integers(-89, -40)), int(rng.integers(-40, -26)), int(rng.integers(-26, 0)), int(rng.integers(1, 41)), int(rng.integers(41, 90)), 90]
+        ks = ks if not ctx.quick() else [ks[0], ks[1], ks[2], ks[int(rng.integers(3, 5))], ks[int(rng.integers(5, 7))]]
+        bi = len(cases)
+        cases.append(base)
+        fam[bi] = []
+        for k in ks:
+            fam[bi].append(len(cases))
+            cases.append(scaled_case(base, k, int(rng.choice([0, 0, -40, 17, 40]))))
     res = ctx.coq_eval(HEADER, [mpe_expr(c) for c in cases], shard=ctx.n(14, 100))
+    outs = []
     for i, (case, s) in enumerate(zip(cases, res)):
         ctx.hist("mpe-kind", case.get("kind", "corpus"))
-        judge_mpe(ctx, case, s)
+        if "scale_log2" in case:
+            ctx.hist("scale-log2", 10 * int(np.floor(case["scale_log2"][0] / 10.0)))
+        outs.append(judge_mpe(ctx, case, s))
         if ncorp <= i < ncorp + 2:
             ctx.sample(dict(kind=case["kind"], freq=case["freq"][:6], sel=case["sel"], DF=case["DF"], note="first grid lines only"))
+    for b, members in fam.items():
+        e0, Fn0, Phi0 = outs[b]
+        for m in members:
+            e1, Fn1, Phi1 = outs[m]
+            small = {k: cases[m][k] for k in ("kind", "freq", "sel", "DF", "Sval", "Svec", "scale_log2")}
+            if (e0 is None) != (e1 is None) or (Fn0 is None) != (Fn1 is None):
+                ctx.fail("oracle", "FDD_mpe: outcome changes (%s -> %s) when S_val is multiplied by 2^%d" % (e0 or "returns", e1 or "returns", cases[m]["scale_log2"][0]),
+                         small, key="C06:FDD_mpe:scale-invariance")
+            elif Fn0 is not None and (not np.array_equal(Fn0, Fn1) or np.abs(Phi0 - Phi1).max() > 1e-12):
+                ctx.fail("oracle", "FDD_mpe: multiplying S_val by 2^%d (S_vec by 2^%d) changes the result: Fn %s -> %s (the ratio of the singular values is unchanged)"
+                         % (cases[m]["scale_log2"][0], cases[m]["scale_log2"][1], Fn0.tolist(), Fn1.tolist()), small, key="C06:FDD_mpe:scale-invariance")
     ctx.extra["t_A"] = round(time.time() - ctx.t0, 1)
     part_B(ctx)
     ctx.extra["t_AB"] = round(time.time() - ctx.t0, 1)
     part_C(ctx)
+    part_C_scale(ctx)
     ctx.extra["t_ABC"] = round(time.time() - ctx.t0, 1)
